@@ -73,17 +73,24 @@ CE2(p, z)    == LET t == CE2Terms(p, z) IN RAdd(RAdd(t[1], t[2]), t[3])
 \* operand scale of that sum (rounding is relative to it, not to a cancelled result)
 CE2Scale(p, z) == LET t == CE2Terms(p, z) IN RAdd(RAdd(CRAbs(t[1]), CRAbs(t[2])), CRAbs(t[3]))
 
-\* min of E^2 over 0 <= z <= zhi: a cubic in u = 1+z with f'(u) = u (3 om u + 2 ok)
+\* min of E^2 over 0 <= z <= zhi: a cubic f(u) = om u^3 + ok u^2 + ol in u = 1+z with f'(u) = u (3 om u + 2 ok);
+\* at the stationary point us = -2 ok / (3 om) its value is ol + 4 ok^3 / (27 om^2)
 CMinE2(p, zhi) ==
     LET e0 == CE2(p, CZero)  e1 == CE2(p, zhi)
         m  == CRMin2(e0, e1)
     IN IF p.om[1] > 0 /\ p.ok[1] < 0
-       THEN LET us == RDiv(RMul(<<-2, 1>>, p.ok), RMul(<<3, 1>>, p.om))     \* stationary point
-                zs == RSub(us, COne)
-            IN IF RLt(CZero, zs) /\ RLt(zs, zhi) THEN CRMin2(m, CE2(p, zs)) ELSE m
+       THEN LET zs == RSub(RDiv(RMul(<<-2, 1>>, p.ok), RMul(<<3, 1>>, p.om)), COne)
+                es == RAdd(p.ol, RDiv(RMul(<<4, 1>>, CCube(p.ok)), RMul(<<27, 1>>, RMul(p.om, p.om))))
+            IN IF RLt(CZero, zs) /\ RLt(zs, zhi) THEN CRMin2(m, es) ELSE m
        ELSE m
 \* the definitions exist on [0, zhi] only where E^2 > 0 (no bounce); nothing is demanded elsewhere
 CPhysical(p, zhi) == RLt(CZero, CMinE2(p, zhi))
+
+\* Dl(0, b) > 0, so that the distance modulus has a real value: always when not closed; in a closed
+\* universe as long as sqrt|ok| int_0^b dz/E < pi (sin still positive), for which
+\* |ok| b^2 / min E^2 < 9.87 < pi^2 is sufficient (int dz/E <= b / sqrt(min E^2))
+CDlPositive(p, b) ==
+    p.flat \/ p.ok[1] >= 0 \/ RLt(RMul(CRAbs(p.ok), RMul(b, b)), RMul(<<987, 100>>, CMinE2(p, b)))
 
 \* "concordance-like": where the statement quantifies the truncation error (1e-6 at z<=1, 1e-3 at z<=5)
 CConcordance(p) ==
@@ -216,7 +223,7 @@ CTol(name, p, a, b) ==
          [] name = "scinv"    -> when(fwd /\ lt, 500000)
          [] name = "scinv_form" -> when(fwd /\ lt /\ CPhysical(p, COne), 16)
          [] name = "scinv_zero" -> when(RLe(b, a), 0)           \* source at or in front of the lens: exactly 0
-         [] name = "distmod"  -> when(fwd /\ b[1] > 0, 16)
+         [] name = "distmod"  -> when(fwd /\ b[1] > 0 /\ CDlPositive(p, b), 16)
          [] name = "eds"      -> when(fwd /\ ~CIsNone(CEds(p, a, b)), IF RLe(b, COne) THEN 1000 ELSE 1000000)
          [] OTHER -> CNA
 
